@@ -283,6 +283,7 @@ func (e *enc) typ(t *schema.Type, v reflect.Value, path string) error {
 	start := len(e.out)
 	lenOff, lenW := -1, 0
 	var lenField reflect.Value
+	lenSite := ""
 	for i := range t.Fields {
 		f := &t.Fields[i]
 		fv := v.FieldByName(f.Name)
@@ -295,6 +296,7 @@ func (e *enc) typ(t *schema.Type, v reflect.Value, path string) error {
 		case "bodylen":
 			lenOff, lenW = len(e.out), schema.Width(f.Prefix)
 			lenField = fv
+			lenSite = e.site
 			e.out = putInt(e.out, lenW, 0, t.LE)
 		case "checksum":
 			x, err := Checksum(f.Alg, e.out[start:])
@@ -313,7 +315,10 @@ func (e *enc) typ(t *schema.Type, v reflect.Value, path string) error {
 				n := uint64(len(e.out) - bodyStart)
 				tmp := putInt(nil, lenW, n, t.LE)
 				copy(e.out[lenOff:], tmp)
+				saved := e.site
+				e.site = lenSite
 				e.t(join(path, "<bodylen>"), "bodylen", lenOff, lenW, true, n)
+				e.site = saved
 				_ = lenField
 				lenOff = -1
 			}
